@@ -2,7 +2,7 @@ def plan(tier):
     t = 1 if tier == 'thorough' else 0
     units = []
     for comp in ('g++', 'clang++'):
-        for part in range(14):
+        for part in range(15):
             if comp == 'clang++' and not t and part % 2 == 0 and part < 12:
                 continue
             units.append(dict(name='%s-p%d' % (comp, part), src='C12.cpp', compiler=comp, mode='ndebug', opt='-O0',
@@ -14,6 +14,7 @@ def plan(tier):
              'eight compound assignments, unary - + ~, ++/-- pre/post, each compared with the built-in expression (value and promoted result type); '
              'documentation kernels multiply-widen, average, mixed-exponent add, square vs hand-written integer code; '
              '15 general scaled_integer<Rep,power<E,Radix>> programs (radix 2/3/8/10/16, E<=0): ++/-- pre/post must add exactly Radix^-E to the rep, += -= *= /= must equal S(a op b); '
+             '10 scaled_bitwise<Rep,E1,E2> programs: & | ^ between different exponents and with built-in operands vs align-and-operate integer code (compared by value); '
              'non-trivial = operand types differ, an operand is changed by the usual arithmetic conversions, or the result is within 2 of a limit',
         bound=dict(nestings=6, type_pairs=18, lattice_step=1 if t else 3),
         assumptions=['states where the built-in reference expression is undefined (signed overflow, shift count out of range, zero divisor, lowest / -1) are skipped and counted',
